@@ -46,11 +46,11 @@ func (i *Ignore) load(rootGoitPath string) error {
 	for scanner.Scan() {
 		text := scanner.Text()
 		var replacedText string
+		// names are taken literally: only '*' is a wildcard
 		if directoryRegexp.MatchString(text) {
-			replacedText = fmt.Sprintf("%s.*", text)
+			replacedText = fmt.Sprintf("%s.*", regexp.QuoteMeta(text))
 		} else {
-			replacedText = strings.ReplaceAll(text, ".", `\.`)
-			replacedText = strings.ReplaceAll(replacedText, "*", ".*")
+			replacedText = strings.ReplaceAll(regexp.QuoteMeta(text), `\*`, ".*")
 		}
 		i.paths = append(i.paths, replacedText)
 	}
